@@ -28,7 +28,7 @@ What to produce:
 2. The existing test suite must still pass with your change: run
    cd {wt} && /venv/bin/python -m pytest -q -p no:cacheprovider --timeout=600 -n 4 --no-cov --deselect test/test_interface.py::test_version_update_pypi 2>&1 | tail -5
    (179 passed is the expected result before and after; the deselected test needs network access). If your change makes a test fail, choose a different change.
-3. A demonstration script {sd}/demo.py that, run as `cd {wt} && /venv/bin/python {sd}/demo.py`, exercises the changed code in-process (import fortls modules, or drive fortls.langserver.LangServer.handle with JSON-RPC dicts through a fake connection object having write_response/write_error/send_notification methods, or call the parser functions directly) on the specific input, prints what is observed and what the property demands, and exits with status 1 when the property is violated (0 when it holds). Verify: with your change it exits 1; on the unmodified code (use `git -C {wt} stash` / `stash pop` to compare) it exits 0.
+3. A demonstration script {sd}/demo.py that, run as `cd {wt} && /venv/bin/python {sd}/demo.py`, exercises the changed code in-process (import fortls modules, or drive fortls.langserver.LangServer.handle with JSON-RPC dicts through a fake connection object having write_response/write_error/send_notification methods, or call the parser functions directly) on the specific input, prints what is observed and what the property demands, and exits with status 1 when the property is violated (0 when it holds). Verify: with your change it exits 1; on the unmodified code it exits 0 (to compare, do NOT use `git stash` - the stash is shared with other worktrees; use `git -C {wt} diff > {sd}/mine.diff && git -C {wt} apply -R {sd}/mine.diff`, run the demo, then `git -C {wt} apply {sd}/mine.diff`).
    IMPORTANT: a script placed outside the worktree imports the installed copy of fortls unless the worktree comes first on sys.path; start demo.py with `import sys, os; sys.path.insert(0, os.getcwd())`.
 4. Leave the change UNCOMMITTED in the worktree, and write it out with: git -C {wt} diff > {sd}/patch.diff
 5. Write {sd}/meta.json with keys: "property" ("{pid}"), "summary" (one sentence: what was changed), "why_plausible" (why a developer might do this), "manifests_when" (the specific input/config/history needed), "files" (list of changed files), "tests_pass" (true/false as you observed), "demo_exit_with_change", "demo_exit_without_change".
